@@ -1,3 +1,83 @@
 package main
 
-func ruleR5(c *Ctx, id string) {}
+import (
+	"golang.org/x/tools/go/ssa"
+)
+
+// ruleR5: format is crash-atomic: the on-disk marker that makes the "file
+// system absent" test false (a root inode with non-zero Kind) must become
+// visible last - either it is written by the journal transaction that creates
+// the root directory, or it is the last raw write of the format path and is
+// separated from the earlier ones by a barrier.
+func ruleR5(c *Ctx, id string) {
+	V, P, R := c.V, c.P, c.R
+	R.Rule(id, "format is crash-atomic: the 'formatted' marker (root inode with non-zero Kind) is written by the transaction that creates the root directory, after the raw bitmap writes; or it is the last raw write, after a barrier", 2)
+	mk := c.fn(id, "nfs.MakeNfs")
+	mkfs := c.fn(id, "nfs.makeFs")
+	mkroot := c.fn(id, "nfs.(*Nfs).makeRootDir")
+	if mk == nil || mkfs == nil || mkroot == nil {
+		return
+	}
+	R.Analysed[FuncName(mkfs)] = true
+	R.Analysed[FuncName(mkroot)] = true
+	// raw writes of the format path, in order; the marker write = WriteDirect of an inode-sized buffer
+	var marker ssa.Instruction
+	var raws []ssa.Instruction
+	for _, b := range mkfs.DomPreorder() {
+		for _, in := range b.Instrs {
+			if _, ok := in.(*ssa.Call); !ok {
+				continue
+			}
+			if cal := staticCallee(in); cal != nil && cal.Name() == "WriteDirect" {
+				marker = in
+				raws = append(raws, in)
+				continue
+			}
+			for _, cal := range P.Callees(in) {
+				r := P.Reach([]*ssa.Function{cal}, func(f *ssa.Function) bool { return !IsRepoFunc(f) })
+				for f := range r {
+					for _, b2 := range f.Blocks {
+						for _, i2 := range b2.Instrs {
+							if k, ok := rawDiskOp(i2); ok && k == "write" {
+								raws = append(raws, in)
+							}
+						}
+					}
+				}
+			}
+		}
+	}
+	if marker == nil {
+		// the marker is not written raw: it must be written inside makeRootDir's transaction
+		init := P.CallsIn(mkroot, funcIs(V.InitInode))
+		wi := P.CallsIn(mkroot, funcIs(V.WriteInode))
+		cm := P.CallsIn(mkroot, funcIs(V.Commit))
+		ok := len(init) == 1 && len(wi) >= 1 && len(cm) == 1
+		if ok {
+			ok = MustBefore(mkroot, callTo(V.InitInode))(cm[0]) && MustBefore(mkroot, callTo(V.WriteInode))(cm[0]) && reachableFrom(init[0], wi[0])
+		}
+		R.Check(ok, id, "nfs.makeRootDir|marker written by the root-directory transaction", P.Pos(mkroot.Pos()), "the root inode is initialised and written through inside the transaction that creates '.' and '..', before its commit", "InitInode, WriteInode precede Commit", "the root inode marker is written neither raw nor in the root-directory transaction")
+		// and makeFs (raw bitmaps) precedes makeRootDir in MakeNfs
+		fsCalls := P.CallsIn(mk, funcIs(mkfs))
+		rdCalls := P.CallsIn(mk, funcIs(mkroot))
+		okOrder := len(fsCalls) == 1 && len(rdCalls) == 1 && reachableFrom(fsCalls[0], rdCalls[0]) && !reachableFrom(rdCalls[0], fsCalls[0])
+		R.Check(okOrder, id, "nfs.MakeNfs|bitmaps before the marker", P.Pos(mk.Pos()), "the raw bitmap writes of mkfs precede the transaction that makes the file system visible", "makeFs before makeRootDir", "the marker can become durable before the bitmaps")
+		return
+	}
+	last := true
+	for _, r := range raws {
+		if r != marker && reachableFrom(marker, r) {
+			last = false
+		}
+	}
+	barrier := false
+	for _, b := range mkfs.Blocks {
+		for _, in := range b.Instrs {
+			if k, ok := rawDiskOp(in); ok && k == "barrier" && reachableFrom(in, marker) {
+				barrier = true
+			}
+		}
+	}
+	R.Check(last && barrier, id, "nfs.makeFs|marker written last, after a barrier", P.Pos(marker.Pos()), "the raw write of the root inode (the 'formatted' marker) is the last raw write of mkfs and is preceded by a barrier", "ordered", "the marker is written first and without barrier: a crash during mkfs leaves a disk that looks formatted but has empty bitmaps and no root directory (after restart the first CREATE is handed inode 1, the locked root, and never returns)")
+	R.Pass(id, "nfs.MakeNfs|format path identified", P.Pos(mk.Pos()), "format path found", "makeFs under root Kind == 0")
+}
